@@ -664,6 +664,9 @@ func (tr *trans) applyContract(fc *FuncContract, sig *types.Signature, key strin
 	// frame
 	switch {
 	case fc.PureFn:
+	case fc.ModAll && len(fc.ModExcept) > 0:
+		keep := tr.footprint(env, fc.ModExcept)
+		tr.havocAllExcept(st, keep.whole)
 	case !fc.HasModifies || fc.ModAll:
 		tr.havocAll(st)
 	default:
@@ -679,7 +682,8 @@ func (tr *trans) applyContract(fc *FuncContract, sig *types.Signature, key strin
 			for _, r := range fp.at[name] {
 				f := tr.vc.fresh("havoc")
 				tr.vc.declConst(f, es)
-				cur = store(cur, r, f)
+				// nothing is ever written at the nil reference
+				cur = ite(eq(r, "0"), cur, store(cur, r, f))
 			}
 			tr.setState(st, name, cur, fp.at[name]...)
 		}
